@@ -292,6 +292,11 @@ class Engine:
             pa, pb = self.as_pv(a, st), self.as_pv(b, st)
             if pa is None or pb is None:
                 raise Unsupported('PV == %r' % (b,))
+            if self.mode == 'spec':
+                # in contracts == on scalar-union values is identity of the
+                # value (same kind, same content); Python's == (1 == True,
+                # 1.0 == 1) is the spec function pv_equal
+                return pa == pb
             return self.pv_eq(pa, pb)
         for cls in (VInt, VStr, VMark, VKind, VFloat, VNodeVal, VPairVal,
                     VErr, VTySet, VSetStr):
@@ -491,7 +496,7 @@ class Engine:
             return VKind(getattr(so, 'K_' + name))
         if name in ('forall', 'exists', 'implies', 'old', 'N', 'P', 'iff',
                     'markstr', 'contains', 'startswith', 'endswith', 'ite',
-                    'GEN_MARK', 'empty_nodes', 'empty_pairs', 'empty_strs', 'in_strs', 'strs_remove',
+                    'GEN_MARK', 'empty_nodes', 'empty_pairs', 'empty_strs', 'in_strs', 'strs_remove', 'pv_equal',
                     'seq_update',
                     'is_node', 'TY', 'typeof', 'pv', 'int_dom', 'float_dom',
                     'int_of_str', 'float_of_str', 'str_of_int',
